@@ -53,6 +53,85 @@ func tokenAdded(v ssa.Value, tok string, oldIs func(ssa.Value) bool) string {
 	return "glue"
 }
 
+// joinedList: v = strings.Join(list, sep) with a whitespace-only non-empty constant sep, where list is a local
+// []string that starts empty and grows only by appends of constants, and is used for nothing but that growth and
+// the Join. Returns the growing appends with their constants.
+func joinedList(v ssa.Value) (map[*ssa.Call]string, bool) {
+	j := isCallTo(v, "strings.Join")
+	if j == nil {
+		return nil, false
+	}
+	sep, ok := constString(j.Common().Args[1])
+	if !ok || sep == "" || strings.TrimSpace(sep) != "" {
+		return nil, false
+	}
+	apps := map[*ssa.Call]string{}
+	chain := map[ssa.Value]bool{}
+	var walk func(x ssa.Value) bool
+	walk = func(x ssa.Value) bool {
+		if chain[x] {
+			return true
+		}
+		switch t := x.(type) {
+		case *ssa.Const:
+			return t.IsNil()
+		case *ssa.MakeSlice:
+			chain[x] = true
+			c, ok := t.Len.(*ssa.Const)
+			return ok && c.Int64() == 0
+		case *ssa.Phi:
+			chain[x] = true
+			for _, e := range t.Edges {
+				if !walk(e) {
+					return false
+				}
+			}
+			return true
+		case *ssa.Call:
+			ac, base := model.IsAppend(t)
+			if ac == nil {
+				return false
+			}
+			k, ok := constString(model.AppendedValue(ac))
+			if !ok {
+				return false
+			}
+			chain[x] = true
+			apps[ac] = k
+			return walk(base)
+		}
+		return false
+	}
+	if !walk(j.Common().Args[0]) {
+		return nil, false
+	}
+	for x := range chain {
+		refs := x.Referrers()
+		if refs == nil {
+			continue
+		}
+		for _, r := range *refs {
+			switch t := r.(type) {
+			case *ssa.DebugRef:
+			case *ssa.Phi:
+				if !chain[t] {
+					return nil, false
+				}
+			case *ssa.Call:
+				if t == j {
+					continue
+				}
+				if ac, base := model.IsAppend(t); ac == nil || base != x || !chain[t] {
+					return nil, false
+				}
+			default:
+				return nil, false
+			}
+		}
+	}
+	return apps, true
+}
+
 // tokenwiseHelper: fn(value, token string) bool returns true only across an equality
 // (== or strings.EqualFold) between an element of strings.Fields(value) and token.
 func tokenwiseHelper(c *Ctx, fn *ssa.Function) bool {
@@ -469,6 +548,24 @@ func c11Elem(c *Ctx, F *model.Fields, fn *ssa.Function, elem string, tok string,
 					return ok && fa.X == ssa.Value(al) && pa.FieldName(fa) == "Val"
 				}
 				kind := tokenAdded(st.Val, tok, oldIs)
+				if apps, ok := joinedList(st.Val); ok {
+					// a value assembled as strings.Join(tokens, " "): the token joins at the append that puts it in
+					// the list; the value is complete (and still to be appended) at this store
+					kind = "joined"
+					for ac, k := range apps {
+						has := false
+						for _, f := range strings.Fields(k) {
+							if f == tok {
+								has = true
+							}
+						}
+						if has {
+							q.Hooks[ac] = func(a uint32) []uint32 {
+								return []uint32{q.With(q.With(a, evT, true), evPend, true)}
+							}
+						}
+					}
+				}
 				isBlank := false
 				if k, ok := constString(st.Val); ok && k == "_blank" {
 					isBlank = true
@@ -486,6 +583,8 @@ func c11Elem(c *Ctx, F *model.Fields, fn *ssa.Function, elem string, tok string,
 					switch kind {
 					case "extend", "fresh":
 						a = q.With(a, evT, true)
+						a = q.With(a, evPend, true)
+					case "joined":
 						a = q.With(a, evPend, true)
 					case "glue":
 						if !q.Bit(a, evClean) {
